@@ -259,6 +259,7 @@ CHANNELS = [
     ("nt_file", "nt", None, "file"),
     ("nt_file_blankline", "nt", None, "file-blank"),
     ("nt_gz", "nt", "gz", "file"),
+    ("nt_gz_nofinalnl", "nt", "gz", "file-nonl"),
     ("nt_xz", "nt", "xz", "file"),
     ("nt_zip", "nt", "zip", "zip1"),
     ("nt_files", "nt", None, "files"),
@@ -351,6 +352,12 @@ def build_channel(ch, ts, r, d):
         kw["graph_file_input"] = path
         info["kind"], info["src"] = "file", [st]
         info["pieces"] = [("text", doc)]
+    elif layout == "file-nonl":
+        doc = docs[0][:-1] if docs[0].endswith(b"\n") else docs[0]
+        path, st = stored_file(0, doc, cm)
+        kw["graph_file_input"] = path
+        info["kind"], info["src"] = "file", [st]
+        info["pieces"] = [("text" if cm is None else "bytes", doc)]
     elif layout == "file":
         path, st = stored_file(0, docs[0], cm)
         kw["graph_file_input"] = path
@@ -998,9 +1005,11 @@ def run_case(case):
                         out["known"]["rc_bnode_relabel_per_pass"] = out["known"].get("rc_bnode_relabel_per_pass", 0) + 1
                 else:
                     out["compared"] += 1
-                    if rcs:
+                    # line-based channels deliver the reference's statement order: compared in full; the rdflib
+                    # channels permute the statements: where candidates tie only the evidence sets are compared
+                    if rcs and not line:
                         out["tie_skipped"] += 1
-                    fails = compare_evidence(e_ref, evidence(res, cfg), rcs, cfg)
+                    fails = compare_evidence(e_ref, evidence(res, cfg), set() if line else rcs, cfg)
             elif res[1] != ref[1]:
                 fails.append("exception class differs: reference %s, channel %s" % (ref[1], res[1]))
             if fails:
@@ -1332,7 +1341,7 @@ def run(tier, seed, replay=None):
                 "distinct_nontrivial = (distinct documents with a class of >= 2 instances and a non-typing triple) x "
                 "channels" % n_channels,
         "comparisons_with_reference": tot["compared"],
-        "comparisons_with_a_tie_in_the_graph": tot["tie_skipped"],
+        "rdflib_channel_comparisons_with_a_tie_in_the_graph": tot["tie_skipped"],
         "blank_node_instance_runs_excluded": tot["excluded_bnode"],
         "streams_corresponded_line_channels": tot["corr_checked"],
         "pipeline_over_recorded_passes_corresponded": tot["run2_checked"],
